@@ -174,6 +174,12 @@ class ImplWorld:
         self.l.next_seq = first_seq
         self.ghost_log = []       # decoded messages of committed transactions, in order
 
+    def _sync_bal(self, l):
+        """the contract's querier shows the chain's bank ledger (a handler that asks for its own balance gets
+        the balance the chain would report at that point of the transaction)"""
+        coins = [{"denom": d, "amount": str(n)} for (a, d), n in sorted(l.bal.items()) if a == self.self and n > 0]
+        self.h.call({"op": "bal", "addr": self.self, "coins": coins})
+
     def _dispatch(self, l, msgs, faults, calls, decoded_log):
         transfers = 0
         for m in msgs:
@@ -218,6 +224,7 @@ class ImplWorld:
                     l.pkts.append({"seq": seq, "channel": x["channel"], "sender": x["sender"], "receiver": x["receiver"],
                                    "coin": {"denom": c["denom"], "amount": str(c["amount"])}, "state": "pending"})
                     if always:
+                        self._sync_bal(l)
                         r = self.h.call({"op": "reply", "id": x["id"], "result": {"ok": seq}})
                         calls.append({"entry": "reply", "id": x["id"], "result_in": {"ok": seq}, "result": r})
                         if outcome(r) != "ok":
@@ -225,6 +232,7 @@ class ImplWorld:
                 else:
                     if not always:
                         return False
+                    self._sync_bal(l)
                     r = self.h.call({"op": "reply", "id": x["id"], "result": {"err": "submission failed"}})
                     calls.append({"entry": "reply", "id": x["id"], "result_in": {"err": "submission failed"}, "result": r})
                     if outcome(r) != "ok":
@@ -243,6 +251,7 @@ class ImplWorld:
             return {"committed": False, "calls": [], "decoded": []}
         self.h.env(self.time, self.height, tx_index)
         self.h.call({"op": "snap"})
+        self._sync_bal(l)
         r = self.h.call({"op": entry, "sender": sender, "funds": funds, "msg": msg})
         calls.append({"entry": entry, "sender": sender, "funds": funds, "msg": msg, "result": r})
         decoded = []
@@ -260,6 +269,7 @@ class ImplWorld:
 
     def _sudo(self, msg):
         self.h.env(self.time, self.height, 0)
+        self._sync_bal(self.l)
         r = self.h.call({"op": "sudo", "msg": msg})
         return [{"entry": "sudo", "msg": msg, "result": r}]
 
